@@ -916,6 +916,52 @@ class Component(composites.Composite, metaclass=ComponentType):
         nDens = {nuc: dens for nuc, dens in zip(nuclideNames, densities)}
         return densityTools.calculateMassDensity(nDens) * volume
 
+    def addMass(self, nucName, mass):
+        """
+        Add mass to a particular nuclide.
+
+        Parameters
+        ----------
+        nucName : str
+            nuclide name e.g. 'U235'
+
+        mass : float
+            mass in grams of nuclide to be added to this component
+
+        Notes
+        -----
+        Like ``getMass``, this uses the volume reduced by the symmetry factor of the parent.
+        """
+        volume = self.getVolume() / (
+            self.parent.getSymmetryFactor() if self.parent else 1.0
+        )
+        addedNumberDensity = densityTools.calculateNumberDensity(nucName, mass, volume)
+        self.setNumberDensity(
+            nucName, self.getNumberDensity(nucName) + addedNumberDensity
+        )
+
+    def setMass(self, nucName, mass):
+        """
+        Set the mass of a nuclide in this component by adjusting its number density.
+
+        Parameters
+        ----------
+        nucName : str
+            Nuclide name to set mass of
+        mass : float
+            Mass in grams to set.
+
+        Notes
+        -----
+        Like ``getMass``, this uses the volume reduced by the symmetry factor of the parent.
+        """
+        volume = self.getVolume() / (
+            self.parent.getSymmetryFactor() if self.parent else 1.0
+        )
+        self.setNumberDensity(
+            nucName, densityTools.calculateNumberDensity(nucName, mass, volume)
+        )
+
     def setDimension(self, key, val, retainLink=False, cold=True):
         """
         Set a single dimension on the component.
